@@ -228,3 +228,7 @@ def r5_seq_table(ctx):
 
 
 RULES = [("R1", r1_limit), ("R2", r2_pairing), ("R3", r3_replay_order), ("R4", r4_skip_table), ("R5", r5_seq_table)]
+
+
+def THOROUGH_EXTRA(ctx):
+    return run_witnesses(ctx, "W", ['W2ConfigImmutable'])
